@@ -25,7 +25,9 @@ type SimParams struct {
 	// OnStep, if non-nil, is called after every scheduler action (C16 injections).
 	OnStep    func(n *Net, step int, rng *rand.Rand)
 	ValChange map[uint64][]int64
-	// Trace records every step of every correct node (Net.Trace); it does not change the simulation
+	// Trace records every step of every correct node (Net.Trace).  The schedule is drawn the same way, but block ids are
+	// numbered when a proposal is made (not when a node first shows the block), so a traced simulation is a different,
+	// equally deterministic, run from the untraced one with the same seed (the Byzantine actor picks among known ids)
 	Trace bool
 }
 
